@@ -1,7 +1,7 @@
 #!/bin/bash
 # usage: lib/seed_matrix.sh [ID-X ...]  -- run the quick check of each seeded change's property against it; writes seeded/<ID-X>/detection.json and seeded/MATRIX.md
 cd /verif || exit 2
-LIST="$@"; [ -z "$LIST" ] && LIST=$(ls seeded | grep -E '^C[0-9]+-[A-Z]$')
+LIST="$@"; [ -z "$LIST" ] && LIST=$(ls seeded | grep -E "^C[0-9]+-[A-Z]$")
 for s in $LIST; do
   id=${s%-*}; checks=$id
   [ "$s" = "C04-B" ] && checks="C04 C09"
